@@ -26,6 +26,7 @@ typedef struct {
   char     resolv_content[512];   /* empty: a comment only */
   char     env_res_options[128];  /* empty: variable unset */
   char     env_localdomain[128];
+  int      lookups_via;  /* 0: ARES_OPT_LOOKUPS; 1: "lookup ..." in resolv.conf (the channel's own copy is replaced on reinit) */
   int      ndots_via;    /* 0: ARES_OPT_NDOTS; 1: "options ndots:N" in resolv.conf; 2: RES_OPTIONS */
   int      domains_via;  /* 0: ARES_OPT_DOMAINS; 1: "search ..." in resolv.conf; 2: LOCALDOMAIN (needs ndomains > 0) */
   int      use_server_state_cb;
@@ -718,6 +719,19 @@ static int app_channel_init(void)
   struct ares_socket_functions_ex sf;
 
   memset(&o, 0, sizeof(o));
+  if (app_cfg.lookups_via && app_cfg.lookups[0]) {
+    size_t ro = strlen(app_cfg.resolv_content);
+    size_t k;
+    if (ro == 0) {
+      ro = (size_t)snprintf(app_cfg.resolv_content, sizeof(app_cfg.resolv_content), "# simnet\n");
+    }
+    ro += (size_t)snprintf(app_cfg.resolv_content + ro, sizeof(app_cfg.resolv_content) - ro, "lookup");
+    for (k = 0; app_cfg.lookups[k]; k++) {
+      ro += (size_t)snprintf(app_cfg.resolv_content + ro, sizeof(app_cfg.resolv_content) - ro, " %s", app_cfg.lookups[k] == 'b' ? "bind" : "file");
+    }
+    ro += (size_t)snprintf(app_cfg.resolv_content + ro, sizeof(app_cfg.resolv_content) - ro, "\n");
+    sim_note("lookup_order_from_system_configuration");
+  }
   if (app_cfg.ndots_via || (app_cfg.domains_via && app_cfg.ndomains > 0)) {
     /* the search parameters come from the system configuration instead of the options */
     size_t ro = strlen(app_cfg.resolv_content);
@@ -771,8 +785,10 @@ static int app_channel_init(void)
     o.ndomains = app_cfg.ndomains;
     mask |= ARES_OPT_DOMAINS;
   }
-  o.lookups = app_cfg.lookups;
-  mask |= ARES_OPT_LOOKUPS;
+  if (!(app_cfg.lookups_via && app_cfg.lookups[0])) {
+    o.lookups = app_cfg.lookups;
+    mask |= ARES_OPT_LOOKUPS;
+  }
   if (sim_cfg.legacy_poll == 0) {
     o.sock_state_cb      = app_sock_state_cb;
     o.sock_state_cb_data = NULL;
@@ -1040,7 +1056,12 @@ static void app_do_action(app_act_t *a)
       {
         int  idx[SIM_MAXSRV], n = 0, x_rc;
         char csv[1024];
-        gen_alt_servers(idx, &n, &app_rng);
+        if (a->arg > 0) {
+          idx[0] = a->arg - 1; /* scripted: exactly this one server */
+          n      = 1;
+        } else {
+          gen_alt_servers(idx, &n, &app_rng);
+        }
         app_servers_csv(csv, sizeof(csv), idx, n);
         sim_note("api_set_servers");
         {
